@@ -43,7 +43,7 @@ MANIFEST = dict(
          'SM/LazyLumpsMut.v): if the change is made only after the reader\'s parse succeeded, the mutated view is looked at by '
          'reader and writer of the mutating view, no two views change the same view and the writer undoes the change on the '
          'values of this file, the mutating machine saves exactly like the plain one (simulation over all histories), hence '
-         'lossless; change-before-raise (fix 61823d3) and missing undo refuted. '
+         'lossless; change-before-raise (fix 477021c) and missing undo refuted. '
          'Container: read (write c) = Some c for every well-formed '
          'container and layout with LZMA as an inverse pair (header, 64-row table in standard and L4D2 field order, revision, '
          'payload placement in write order, game-lump directory with absolute offsets, NUL separators and the dummy entry); '
@@ -76,7 +76,7 @@ MANIFEST = dict(
 
 # (reader, view) pairs where the reader changes, in place, objects it reaches through another view; each was reviewed:
 # bmodels takes the "model" key out of the brush entities of ents (its writer, which precedes the ents writer in the rebuild
-# order, puts it back; since fix 61823d3 only after every reference was resolved, so a look that raises leaves them alone);
+# order, puts it back; since fix 477021c only after every reference was resolved, so a look that raises leaves them alone);
 # faces / hdr_faces set texinfo and hammer_id of the orig_faces objects (the ORIGINALFACES reader ignores both fields)
 REVIEWED_ELEMENT_MUTATIONS = [('bmodels', 'ents'), ('faces', 'orig_faces'), ('hdr_faces', 'orig_faces')]
 # the pairs of the kind "the reader changes, the writer of the same view undoes" (theorem c10_hidden_mutation_lossless)
